@@ -391,9 +391,68 @@ func RunHistory(rng *common.Rng, cfg Config) (*Run, error) {
 		return setOf(f)
 	}
 
+	// quiescence check (C02): deliver everything held for session s, NOOP, and compare its view with a fresh session's
+	quiesce := func(s int) error {
+		m := mir[s]
+		for verifhook.Held(w.StateID[s]) > 0 {
+			if _, err := exec(Op{Kind: "deliver", S: s}); err != nil {
+				return err
+			}
+		}
+		if _, err := exec(Op{Kind: "cmd", S: s, Cmd: "noop"}); err != nil {
+			return err
+		}
+		obs, err := exec(Op{Kind: "cmd", S: s, Cmd: "probe"})
+		if err != nil {
+			return err
+		}
+		uids, fls, err := w.FreshView(m.Mb)
+		if err != nil {
+			return err
+		}
+		run.Views = append(run.Views, ViewObs{AfterStep: len(run.Hist), Mb: m.Mb, UIDs: uids, Flags: fls})
+		var suids []int
+		var sfl [][]int
+		for _, r := range obs.Out {
+			if r.Kind == "FETCH" && r.UID > 0 {
+				suids = append(suids, r.UID)
+				sfl = append(sfl, without(setOf(r.Flags), 0))
+			}
+		}
+		run.Stats["c02-checks"]++
+		same := eqInts(suids, uids)
+		if same {
+			for i := range sfl {
+				if !eqInts(setOf(sfl[i]), setOf(fls[i])) {
+					same = false
+				}
+			}
+		}
+		if !same {
+			canon := c02Canon(suids, sfl, uids, fls)
+			switch {
+			case overtook[s]:
+				canon = "own-overtakes-queued: " + canon
+			case staleSel[s]:
+				canon = "stale-updates-after-select: " + canon
+			case selfReadd[s]:
+				canon = "self-readd-held: " + canon
+			}
+			run.Fails = append(run.Fails, Fail{Prop: "C02", Canon: canon,
+				Detail: fmt.Sprintf("session %d after drain+NOOP sees uids=%v flags=%v; a fresh session sees uids=%v flags=%v | history: %s", s, suids, sfl, uids, fls, HistString(run.Hist)), Step: len(run.Hist)})
+		}
+		return nil
+	}
+
 	if len(cfg.Script) > 0 {
 		for _, o := range cfg.Script {
 			if o.Kind == "deliver" && verifhook.Held(w.StateID[o.S]) == 0 {
+				continue
+			}
+			if o.Kind == "quiesce" {
+				if err := quiesce(o.S); err != nil {
+					return run, err
+				}
 				continue
 			}
 			if o.Kind == "drain" {
@@ -434,52 +493,8 @@ func RunHistory(rng *common.Rng, cfg Config) (*Run, error) {
 		}
 		// quiescence check (C02)
 		if rng.Chance(cfg.C02Rate) {
-			for verifhook.Held(w.StateID[s]) > 0 {
-				if _, err := exec(Op{Kind: "deliver", S: s}); err != nil {
-					return run, err
-				}
-			}
-			if _, err := exec(Op{Kind: "cmd", S: s, Cmd: "noop"}); err != nil {
+			if err := quiesce(s); err != nil {
 				return run, err
-			}
-			obs, err := exec(Op{Kind: "cmd", S: s, Cmd: "probe"})
-			if err != nil {
-				return run, err
-			}
-			uids, fls, err := w.FreshView(m.Mb)
-			if err != nil {
-				return run, err
-			}
-			run.Views = append(run.Views, ViewObs{AfterStep: len(run.Hist), Mb: m.Mb, UIDs: uids, Flags: fls})
-			var suids []int
-			var sfl [][]int
-			for _, r := range obs.Out {
-				if r.Kind == "FETCH" && r.UID > 0 {
-					suids = append(suids, r.UID)
-					sfl = append(sfl, without(setOf(r.Flags), 0))
-				}
-			}
-			run.Stats["c02-checks"]++
-			same := eqInts(suids, uids)
-			if same {
-				for i := range sfl {
-					if !eqInts(setOf(sfl[i]), setOf(fls[i])) {
-						same = false
-					}
-				}
-			}
-			if !same {
-				canon := c02Canon(suids, sfl, uids, fls)
-				switch {
-				case overtook[s]:
-					canon = "own-overtakes-queued: " + canon
-				case staleSel[s]:
-					canon = "stale-updates-after-select: " + canon
-				case selfReadd[s]:
-					canon = "self-readd-held: " + canon
-				}
-				run.Fails = append(run.Fails, Fail{Prop: "C02", Canon: canon,
-					Detail: fmt.Sprintf("session %d after drain+NOOP sees uids=%v flags=%v; a fresh session sees uids=%v flags=%v | history: %s", s, suids, sfl, uids, fls, HistString(run.Hist)), Step: len(run.Hist)})
 			}
 			continue
 		}
